@@ -355,3 +355,35 @@ Proof.
   intros Ht Hf. unfold pipeline_values. simpl. rewrite (canon_key_any_casing _ _ Ht Hf), String.eqb_refl.
   destruct all; reflexivity.
 Qed.
+
+(** * bytes in, bytes out *)
+
+(** the path the upstream receives, in terms of the bytes the client sent: with
+    no trusted X-Forwarded-Uri, under `off` / `no_decode`, a valid encoded
+    request path comes out as add_path_prefix ++ (path minus strip_path_prefix),
+    byte for byte *)
+Theorem request_path_end_to_end fx q pl r tls m uri host hs body :
+  serve fx q pl r = Forwarded tls m uri host hs body ->
+  oracle_ok q = true -> valid_encoded (q_raw q) = true ->
+  h_get "X-Forwarded-Uri" (in_headers q) = "" ->
+  r_setting r <> On -> guard_F5 r = false ->
+  fst (cut_on "?" uri) =
+  (let p := cfg_add r ++ strip_prefix (cfg_strip r) (q_raw q) in if is_empty p then "/" else p).
+Proof.
+  intros Hs Ho Hvr Hx Hon G5.
+  destruct (serve_forwarded _ _ _ _ _ _ _ _ _ _ Hs) as (u & t & Hv & He & _ & _ & _ & _ & Huri & _ & _ & _).
+  pose proof (view_url_wf q u Ho Hv) as Hwf.
+  unfold guard_F5 in G5. apply negb_false_iff in G5. apply andb_true_iff in G5 as [Hva Hwa].
+  pose proof (wire_path_exact_bytes fx r u t Hwf Hon Hva Hwa He) as Hp.
+  rewrite (view_url_rawpath q u Hv Hx Hvr) in Hp.
+  cbv zeta. set (p := cfg_add r ++ strip_prefix (cfg_strip r) (q_raw q)) in *.
+  assert (Hpv : valid_encoded p = true).
+  { unfold p. rewrite valid_encoded_app, Hva. apply strip_prefix_valid. exact Hvr. }
+  set (P := if is_empty p then "/" else p).
+  assert (HP : mem_ascii "?" P = false).
+  { unfold P. destruct (is_empty p); [reflexivity | apply valid_no_qmark; exact Hpv]. }
+  subst uri. rewrite (request_line _ _ _ _ He), Hp. fold P. cbv zeta.
+  match goal with |- context [if is_empty ?q' then _ else _] => destruct (is_empty q') end.
+  - rewrite append_nil_r, cut_on_no_sep by exact HP. reflexivity.
+  - rewrite cut_on_app_no_sep by exact HP. reflexivity.
+Qed.
